@@ -153,6 +153,15 @@ fn consumer(front: Front, inst: Inst, obs: Arc<Obs>) {
     obs.done.store(true, Ordering::SeqCst);
 }
 
+/// Pins a thread (kernel tid; 0 = the caller) to one CPU.
+fn pin_thread(ktid: i32, cpu: usize) {
+    unsafe {
+        let mut set: libc::cpu_set_t = std::mem::zeroed();
+        libc::CPU_SET(cpu % 16, &mut set);
+        libc::sched_setaffinity(ktid, std::mem::size_of::<libc::cpu_set_t>(), &set);
+    }
+}
+
 enum Inst {
     Front(Signals),
     Poll(SignalDelivery<UnixStream, SignalOnly>),
@@ -165,6 +174,7 @@ struct Tot {
     paused_consumer: u64,
     paused_closer: u64,
     random: u64,
+    pinned: u64,
     keys: std::collections::HashSet<String>,
     samples: Vec<J>,
     bad: Vec<(String, String)>,
@@ -317,6 +327,34 @@ fn trial(front: Front, scenario: u32, psite: u32, occ: u64, with_signal: bool, s
             director::rule_off(site::IT_CLOSE_FLAGGED);
             director::open_gate(1);
         }
+        3 => {
+            // the wake-up of close() makes the consumer runnable on the closer's own CPU: the kernel may switch to it
+            // before close() has executed its next instruction
+            tot.pinned += 1;
+            tot.keys.insert(format!("{:?}:same-cpu:{}", front, with_signal));
+            let cpu = (rng.below(8) + 2) as usize;
+            pin_thread(ktid, cpu);
+            if with_signal {
+                deliver(1);
+            }
+            let prog = || obs.progress.load(Ordering::SeqCst);
+            let sysnos: &[i64] = if front == Front::Poll { &[7, 271] } else { &[0, 45] };
+            let tw = crate::now_ms();
+            while !crate::probe::stably_blocked_in(ktid, sysnos, None, 2, 1, &prog) {
+                if crate::now_ms() - tw > 5000 || obs.done.load(Ordering::SeqCst) {
+                    break;
+                }
+            }
+            let h = clone_a.clone();
+            let done = closer_done.clone();
+            closer_join = Some(std::thread::spawn(move || {
+                crate::set_thread(6, class::MUTATOR);
+                pin_thread(0, cpu);
+                h.close();
+                director::lib_exit();
+                done.store(true, Ordering::SeqCst);
+            }));
+        }
         _ => {
             tot.random += 1;
             tot.keys.insert(format!("{:?}:random:{}", front, with_signal));
@@ -434,6 +472,12 @@ pub fn main(args: &[String]) -> i32 {
                     trial(front, 1, 0, 1, with_signal, sig, &mut rng, &mut tot);
                 }
             }
+            for i in 0..(random_n / 3).max(20) {
+                trial(front, 3, 0, 0, i % 4 == 0, sig, &mut rng, &mut tot);
+                if !tot.bad.is_empty() && !crate::has_flag(args, "--keep-going") || tot.inconclusive.is_some() {
+                    break 'all;
+                }
+            }
             for i in 0..random_n {
                 trial(front, 2, 0, 0, i % 2 == 0, sig, &mut rng, &mut tot);
                 if !tot.bad.is_empty() && !crate::has_flag(args, "--keep-going") || tot.inconclusive.is_some() {
@@ -462,6 +506,7 @@ pub fn main(args: &[String]) -> i32 {
         .set("trials_consumer_paused", J::u(tot.paused_consumer))
         .set("trials_closer_paused", J::u(tot.paused_closer))
         .set("trials_random", J::u(tot.random))
+        .set("trials_same_cpu", J::u(tot.pinned))
         .set("trials_site_not_reached", J::u(tot.site_not_reached))
         .set("poll_signal_calls", J::u(tot.polls))
         .set("poll_pending_results_checked", J::u(tot.pending_results))
